@@ -1499,7 +1499,18 @@ class Store:
                 merged_initial_state)
 
             root = here + daughter_path
-            process_paths = dict_to_paths(root, processes)
+            if 'processes' in daughter or 'steps' in daughter:
+                # in declaration order: the processes, then the steps (as
+                # the constructor and _generate list them), not in the
+                # order of the merged dictionary
+                process_paths = []
+                for listed in dict_to_paths(
+                        root, daughter.get('processes', {})
+                ) + dict_to_paths(root, daughter.get('steps', {})):
+                    if listed[0] not in [path for path, _ in process_paths]:
+                        process_paths.append(listed)
+            else:
+                process_paths = dict_to_paths(root, processes)
             process_and_step_updates.extend(process_paths)
 
             flow_paths = dict_to_paths(root, flow)
